@@ -9,6 +9,7 @@ float as the code does).  A requested unit outside the three families must be re
 Direct checks on the implementation alone: A->B->A through a second write/read is the identity, A->B->C
 equals A->C, F = nu*F_nu and L = F*d^2 between the values returned for different requested units.
 """
+import gzip
 import os
 import shutil
 import tempfile
@@ -31,10 +32,13 @@ BAD = ['K', 'm', 'Hz', 'g']
 LEGACY = {'mJy': 'MJY', 'cgs': 'ergs/cm^2/s'}      # legacy spellings in sed/helpers.py UNIT_MAPPING
 REQUIRED_BRANCHES = (['%s->%s' % (a, b) for a in ('fnu', 'flux', 'lum') for b in ('fnu', 'flux', 'lum')] +
                      ['refused', 'order_nu', 'order_wav', 'apertures_1', 'apertures_5', 'wav_increasing',
-                      'wav_decreasing', 'sequential_read', 'sequential_same_ends_other_interior', 'dtype_f4', 'dtype_f8', 'f4_large_luminosity', 'nu_unit_Hz', 'nu_unit_kHz', 'nu_unit_GHz',
+                      'wav_decreasing', 'sed_from_wav_and_nu', 'sed_from_nu_only', 'sed_from_wav_only', 'no_distance_keyword',
+                      'gz_without_ext', 'gz_with_ext', 'sequential_read', 'sequential_same_ends_other_interior', 'dtype_f4', 'dtype_f8', 'f4_large_luminosity', 'nu_unit_Hz', 'nu_unit_kHz', 'nu_unit_GHz',
                       'nu_unit_THz', 'wav_unit_micron', 'wav_unit_other', 'legacy_units', 'legacy_MJY', 'legacy_ergs', 'err_unit_same', 'err_unit_same_family', 'err_unit_cross_family'] + ['pair_%s_%s' % (a, b) for a in KEYS for b in KEYS])
 ASSUMPTIONS = ['IEEE rounding is not modelled: values compared within 1e-9 relative',
                'frequencies and distance non-zero, finite positive fluxes',
+               'a file without a DISTANCE keyword is read as lying at 1 kpc (the reader\'s documented convention); the relations '
+               'are then checked with d = sed.distance = 1 kpc',
                'single-precision files: expected values are computed from the float32 numbers actually stored; the result '
                'must be finite and equal to the converted value within float64 rounding (luminosities above 3.4e38 erg/s included)',
                'scale factors of the five units are the exact decimal values (mJy = 1e-26, Jy = 1e-23 erg/cm^2/s/Hz, '
@@ -43,7 +47,7 @@ ASSUMPTIONS = ['IEEE rounding is not modelled: values compared within 1e-9 relat
                'the public API: the SED.flux / SED.error setters validate the physical type, so such a file cannot be '
                'written with SED.write; only the target-side refusal is exercised (C15_refuse covers both in the model)']
 EXHAUSTIVE = {'quick': True, 'thorough': True}   # all 5 x 5 unit pairs are enumerated in both tiers
-N = {'quick': 340, 'thorough': 24000}
+N = {'quick': 365, 'thorough': 24000}
 DIST_UNITS = ['kpc', 'pc', 'cm', 'lyr']
 
 
@@ -61,7 +65,7 @@ WAV_UNITS = ['micron', 'nm', 'AA', 'cm', 'mm', 'm']
 
 
 def gen_case(rng, stored=None, requested=None, nap=None, order=None, wdir=None, stored_err=None, legacy=None,
-             dtype=None, big_lum=None, nu_unit=None, wav_unit=None, n_extra=None):
+             dtype=None, big_lum=None, nu_unit=None, wav_unit=None, n_extra=None, gz=None, axes=None, no_distance=None):
     free_request = requested is None
     stored = stored or rng.choice(KEYS)
     # the error column carries its own unit in the file; SED validates / writes / reads the two separately
@@ -134,13 +138,21 @@ def gen_case(rng, stored=None, requested=None, nap=None, order=None, wdir=None, 
         if dtype == 'f4':
             cross = [key for key in cross if key != 'lum'] or cross
         extras.append(dict(wav=w2, flux=f2, err=e2, requested=rng.choice(cross)))
+    axes = axes or rng.choice(['both', 'both', 'nu_only', 'wav_only'])
+    nu_unit = nu_unit or rng.choice(['Hz', 'Hz', 'Hz', 'kHz', 'GHz', 'THz'])
+    wav_unit = wav_unit or rng.choice(['micron', 'micron', 'micron'] + WAV_UNITS[1:])
+    if axes == 'nu_only':
+        wav_unit = 'micron'               # the derived wavelengths come out in micron
+    elif axes == 'wav_only':
+        nu_unit = 'Hz'                    # the derived frequencies come out in Hz
     return dict(stored=stored, stored_err=stored_err, requested=requested, third=third, wav=wav, extras=extras, distance=dist, distance_unit=dunit,
                 apertures=aps if nap > 1 else None, flux=flux, err=err,
                 order=order or rng.choice(['nu', 'wav']),
                 legacy=bool(rng.random() < 0.25 if legacy is None else legacy),
                 dtype=dtype, big_lum=bool(big_lum),
-                nu_unit=nu_unit or rng.choice(['Hz', 'Hz', 'Hz', 'kHz', 'GHz', 'THz']),
-                wav_unit=wav_unit or rng.choice(['micron', 'micron', 'micron'] + WAV_UNITS[1:]))
+                gz=(rng.choice([None, None, None, 'without_ext', 'with_ext']) if gz is None else (gz or None)),
+                axes=axes, no_distance=bool(rng.random() < 0.1 if no_distance is None else no_distance),
+                nu_unit=nu_unit, wav_unit=wav_unit)
 
 
 def gen_cases(seed, tier):
@@ -150,7 +162,8 @@ def gen_cases(seed, tier):
         for b in KEYS:
             rng = case_rng(seed, PID, i)
             yield gen_case(rng, stored=a, requested=b, nap=[1, 5, 2][i % 3], order=['nu', 'wav'][i % 2],
-                           wdir=['inc', 'dec'][(i // 2) % 2], stored_err=a, dtype='f8', nu_unit='Hz', wav_unit='micron')
+                           wdir=['inc', 'dec'][(i // 2) % 2], stored_err=a, dtype='f8', nu_unit='Hz', wav_unit='micron', gz=False,
+                           axes='both', no_distance=False)
             i += 1
     # error column stored in another unit than the flux column: all 20 ordered pairs, requested unit cycling
     for a in KEYS:
@@ -186,6 +199,21 @@ def gen_cases(seed, tier):
             yield gen_case(rng, stored=a, stored_err=a, requested=b, nu_unit=nuu, wav_unit=WAV_UNITS[(i + k) % 6],
                            legacy=bool(i % 2))
             i += 1
+    # SEDs defined by `nu` alone (Hz and other frequency units) or by `wav` alone, either spectral order; files without
+    # a DISTANCE keyword (read as 1 kpc)
+    for k, (ax, nuu, wvu) in enumerate((('nu_only', 'Hz', None), ('nu_only', 'GHz', None), ('nu_only', 'THz', None),
+                                        ('wav_only', None, 'micron'), ('wav_only', None, 'nm'), ('both', 'GHz', 'AA'))):
+        for wd in ('inc', 'dec'):
+            rng = case_rng(seed, PID, i)
+            a, b = [('mJy', 'cgs'), ('lum', 'Jy'), ('cgs', 'mJy'), ('Jy', 'lum')][(i + k) % 4]
+            yield gen_case(rng, stored=a, stored_err=a, requested=b, axes=ax, nu_unit=nuu, wav_unit=wvu, wdir=wd,
+                           no_distance=bool(k % 3 == 1 and wd == 'inc'))
+            i += 1
+    # files stored as *.fits.gz, addressed without and with the suffix, requested unit of another family
+    for k, (a, b) in enumerate((('mJy', 'cgs'), ('cgs', 'Jy'), ('lum', 'mJy'), ('Jy', 'lum'), ('SI', 'lum'), ('mJy', 'SI'))):
+        rng = case_rng(seed, PID, i)
+        yield gen_case(rng, stored=a, stored_err=a, requested=b, gz=['without_ext', 'with_ext'][k % 2 if k < 4 else 0])
+        i += 1
     # sequential reads of files with equal-looking grids (same length / end points / units), cross-family requests
     for a in KEYS:
         rng = case_rng(seed, PID, i)
@@ -198,6 +226,16 @@ def gen_cases(seed, tier):
 
 
 # ----------------------------------------------------------------------------- real side
+
+def distance_cm(case):
+    """the distance SED.read attaches to the file, in cm: the DISTANCE keyword (written in cm by SED.write), or 1 kpc
+    when the file has none (the reader's documented convention)"""
+    from astropy import units as u
+    U = units()
+    if case.get('no_distance'):
+        return float((1. * u.kpc).to(u.cm).value)
+    return float((case['distance'] * U[case['distance_unit']]).to(u.cm).value)
+
 
 def write_sed(case, path, unit):
     U = units()
@@ -215,8 +253,29 @@ def write_sed(case, path, unit):
         s.nu = s.nu.to(U[case['nu_unit']])
     if case.get('wav_unit', 'micron') != 'micron':
         s.wav = s.wav.to(U[case['wav_unit']])
+    axes = case.get('axes', 'both')
+    if axes != 'both':
+        # an SED defined by its frequencies alone (the wavelengths are derived by the `wav` getter) or by its
+        # wavelengths alone (the frequencies are derived by the `nu` getter)
+        from sedfitter.sed import SED
+        s2 = SED()
+        s2.name = s.name
+        if axes == 'nu_only':
+            s2.nu = s.nu
+        else:
+            s2.wav = s.wav
+        if s.apertures is not None:
+            s2.apertures = s.apertures
+        s2.flux = s.flux
+        s2.error = s.error
+        s = s2
     s.distance = case['distance'] * U[case['distance_unit']]
     s.write(path, overwrite=True)
+    if case.get('no_distance'):
+        from astropy.io import fits
+        with fits.open(path, mode='update') as h:
+            del h[0].header['DISTANCE']
+            h.flush()
     if case.get('dtype') == 'f4':
         from astropy.io import fits
         with fits.open(path) as h:
@@ -235,7 +294,17 @@ def write_sed(case, path, unit):
                 if key in LEGACY:
                     h[3].header['TUNIT%d' % col] = LEGACY[key]
             h.flush()
+    if case.get('gz'):
+        # stored as *.fits.gz (as large model packages are shipped); addressed with or without the .gz suffix
+        with open(path, 'rb') as fi, gzip.open(path + '.gz', 'wb') as fo:
+            shutil.copyfileobj(fi, fo)
+        os.remove(path)
     return s
+
+
+def address(case, path):
+    """the file name handed to SED.read: SED.read falls back to <name>.gz when <name> does not exist"""
+    return path + '.gz' if case.get('gz') == 'with_ext' else path
 
 
 def read_values(path, unit, order):
@@ -293,11 +362,12 @@ def run_case(case):
         try:
             with common.quiet():
                 write_sed(case, path, U[a])
+            path = address(case, path)
         except Exception as ex:
             return CaseResult(False, violates=True, detail='SED.write of an SED in %s raised %s: %s' % (a, type(ex).__name__, ex))
         # what the file holds, computed on the harness side as the code does
         nu = (np.array(case['wav'], dtype=float) * u.micron).to(u.Hz, equivalencies=u.spectral()).value
-        d_cm = float((case['distance'] * U[case['distance_unit']]).to(u.cm).value)
+        d_cm = distance_cm(case)
         perm = np.argsort(nu)
         if case['order'] == 'wav':
             perm = perm[::-1]
@@ -336,6 +406,16 @@ def run_case(case):
                               % (U[b], s.flux.unit, s.error.unit, a, ae))
         if case.get('big_lum'):
             branches.add('f4_large_luminosity' if case.get('dtype') == 'f4' else 'large_luminosity')
+        branches.add('sed_from_' + {'both': 'wav_and_nu', 'nu_only': 'nu_only', 'wav_only': 'wav_only'}[case.get('axes', 'both')])
+        if case.get('no_distance'):
+            branches.add('no_distance_keyword')
+        got_d = float(s.distance.to(u.cm).value)
+        if not abs(got_d - d_cm) <= 1e-12 * d_cm:
+            return CaseResult(False, violates=True, branches=sorted(branches),
+                              detail='SED.read attaches distance %r cm, the file says %r cm%s'
+                              % (got_d, d_cm, ' (no DISTANCE keyword: 1 kpc)' if case.get('no_distance') else ''))
+        if case.get('gz'):
+            branches.add('gz_' + case['gz'])
         if case.get('legacy'):
             branches.add('legacy_units')
             for key in (a, ae):
@@ -383,8 +463,9 @@ def sequential_reads(case, d, drv, branches):
         paths.append(os.path.join(d, 'x%d.fits' % k))
         with common.quiet():
             write_sed(sub, paths[-1], U[sub['stored']])
+        paths[-1] = address(sub, paths[-1])
     a, ae = case['stored'], case.get('stored_err', case['stored'])
-    d_cm = float((case['distance'] * U[case['distance_unit']]).to(u.cm).value)
+    d_cm = distance_cm(case)
     tol = TOL[case.get('dtype', 'f8')]
     prev = case['wav']
     for k, (sub, path) in enumerate(zip(subs, paths)):
@@ -480,8 +561,9 @@ def search(seed, tier, disagreeing_cases):
             try:
                 with common.quiet():
                     write_sed(case, path, U[case['stored']])
+                path = address(case, path)
                 nu = (np.array(case['wav'], dtype=float) * u.micron).to(u.Hz, equivalencies=u.spectral()).value
-                d_cm = float((case['distance'] * U[case['distance_unit']]).to(u.cm).value)
+                d_cm = distance_cm(case)
                 perm = np.argsort(nu)
                 if case['order'] == 'wav':
                     perm = perm[::-1]
